@@ -879,7 +879,7 @@ class Arm(Robot):
         else:
             poses = []
         for i in range((self.num_dof)):
-            poses.append(self.FKJoint(self._theta, i))
+            poses.append(self.FKJoint(self._theta.copy(), i))
         if self._eef_to_last_joint is not None:
             poses.insert(-1, poses[-1] @ self._eef_to_last_joint)
         return poses
@@ -1473,7 +1473,7 @@ class Arm(Robot):
             np.ndarray[float]: Output theta, either input or current state.
         """        
         if theta is None:
-            return self._theta
+            return self._theta.copy()
         return theta
 
 class URDFLoader:
